@@ -117,11 +117,25 @@ def wiring(c):
                     ts.of(out4.stream.ready) == I["o_ready"]),
              clause="delivers bytes written by the host to its receive stream: `rx` is the OUT endpoint 4's output stream "
                     "(in-order delivery by that endpoint: C13/C16)")
-    out_ep = "usb.USBStreamOutEndpoint"
-    fifo_rd = ts.sig(out_ep + ".read_data")
+    # every child below is the real instance (found by class, and by role where a class occurs more than once: "the FIFO
+    # inside OUT endpoint 4", "the transfer manager inside IN endpoint n"), never a submodule path of USBSerialDevice/USBDevice
+    from luna.gateware.usb.usb2.device import USBDevice
+    from luna.gateware.usb.usb2.packet import USBTokenDetector, USBHandshakeDetector
+    from luna.gateware.usb.usb2.transfer import USBInTransferManager
+    from luna.gateware.memory import TransactionalizedFIFO
+    from .c10_unsupported_requests_stall import within
+    from hwv.contract import BindingError
+
+    def inside(cls, parent):
+        found = [x for x in ts.instances(cls) if within(ts, x, parent)]
+        if len(found) != 1:
+            raise BindingError(f"expected exactly one {cls.__name__} inside the {type(parent).__name__} instance, found {len(found)}")
+        return found[0]
+    fifo = inside(TransactionalizedFIFO, out4)
+    fifo_rd = ts.of(fifo.read_data)
     c.ensure("rx_stream_is_out_endpoint_fifo",
-             z3.And(O["o_valid"] == ~ts.sig(out_ep + ".empty"), O["o_payload"] == bits(fifo_rd, 7, 0),
-                    O["o_last"] == bits(fifo_rd, 8), O["o_first"] == bits(fifo_rd, 9), ts.sig(out_ep + ".read_en") == I["o_ready"]),
+             z3.And(O["o_valid"] == ~ts.of(fifo.empty), O["o_payload"] == bits(fifo_rd, 7, 0),
+                    O["o_last"] == bits(fifo_rd, 8), O["o_first"] == bits(fifo_rd, 9), ts.of(fifo.read_en) == I["o_ready"]),
              clause="... i.e. the read side of that endpoint's FIFO; `rx.ready` advances it")
     c.ensure("tx_stream_feeds_in_endpoint_4",
              z3.And(ts.of(in4.stream.valid) == I["i_valid"], ts.of(in4.stream.payload) == I["i_payload"],
@@ -129,22 +143,19 @@ def wiring(c):
                     O["i_ready"] == ts.of(in4.stream.ready), ts.of(in3.stream.valid) == 0),
              clause="delivers bytes from its transmit stream to the host: `tx` is the input stream of IN endpoint 4 (in-order "
                     "delivery by that endpoint: C11); the status endpoint 3 is never fed")
-    tok_ep = ts.sig("usb.token_detector.endpoint")
+    td, hsd = ts.instance(USBTokenDetector), ts.instance(USBHandshakeDetector)
+    tok_ep = ts.of(td.interface.endpoint)
     c.ensure("endpoints_attached_to_the_device",
              z3.And(*[z3.And(ts.of(o.interface.tokenizer.endpoint) == tok_ep,
-                             ts.of(o.interface.tokenizer.new_token) == ts.sig("usb.token_detector.new_token"),
-                             ts.of(o.interface.handshakes_in.ack) == ts.sig("usb.handshake_detector.ack")) for o in eps]),
+                             ts.of(o.interface.tokenizer.new_token) == ts.of(td.interface.new_token),
+                             ts.of(o.interface.handshakes_in.ack) == ts.of(hsd.detected.ack)) for o in eps]),
              clause="every endpoint sees the device's token detector and handshake detector (the interface C11/C13 assume)")
-    mods = sorted({p.rsplit(".tx_manager.", 1)[0] for p in ts.paths if ".tx_manager." in p and p.startswith("usb.USBStreamInEndpoint")})
+    managers = [inside(USBInTransferManager, o) for o in (in3, in4)]
     c.ensure("in_endpoints_active_for_their_number",
-             z3.And(*[z3.Or(*[(ts.sig(m + ".tx_manager.active") == 1) == (tok_ep == num) for m in mods]) for num in (3, 4)]),
+             z3.And(*[z3.Or(*[(ts.of(m.active) == 1) == (tok_ep == num) for m in managers]) for num in (3, 4)]),
              clause="the IN transfer managers are active exactly for tokens to endpoint 3 / endpoint 4")
     c.ensure("connect_gates_pullup", z3.Implies(I["connect"] == 0, O["term_select"] == 0),
              clause="`connect` is passed to the USB device (no termination / pull-up while not connected)")
-    for hmod in ("StandardRequestHandler", "ACMRequestHandlers", "StallOnlyRequestHandler", "request_mux.stall_handler"):
-        pref = "usb.USBControlEndpoint." + hmod + "."
-        c.lemma("control_endpoint_has_" + hmod.replace(".", "_"), z3.BoolVal(any(p.startswith(pref) for p in ts.paths)),
-                clause="the control endpoint of the device contains the standard, ACM and stall handlers and the fallback")
     # ---- the control endpoint the device REALLY composes (part (A) above is proved on a copy of that composition): its
     #      handler set, and the hookup of every handler, of the multiplexer and of the setup decoder inside the device
     from luna.gateware.usb.usb2.control import USBControlEndpoint
@@ -154,8 +165,12 @@ def wiring(c):
     below_ce = lambda h: hier(ts, h)[:-1] == hier(ts, ce)
     user_stall = [h for h in ts.instances(StallOnlyRequestHandler) if below_ce(h)]
     acm, std = ts.instances(ACMRequestHandlers), ts.instances(StandardRequestHandler)
+    from luna.gateware.usb.usb2.request import USBRequestHandlerMultiplexer
+    muxes = [h for h in ts.instances(USBRequestHandlerMultiplexer) if below_ce(h)]
+    fallback = [h for h in ts.instances(StallOnlyRequestHandler) if muxes and hier(ts, h)[:-1] == hier(ts, muxes[0])]
     c.lemma("control_endpoint_handler_set", z3.BoolVal(len(acm) == 1 and len(std) == 1 and len(user_stall) == 1 and
-                                                       below_ce(acm[0]) and below_ce(std[0])),
+                                                       below_ce(acm[0]) and below_ce(std[0]) and len(muxes) == 1 and
+                                                       len(fallback) == 1),
             clause="the device's control endpoint is composed of exactly one StandardRequestHandler, one ACMRequestHandlers and one "
                    "StallOnlyRequestHandler (+ the multiplexer's own fallback), as part (A) assumes")
     control_endpoint_obligations(c, ts, ce, 0, {"setup_decoder", "request_interface", "commit", "handlers"},
@@ -173,7 +188,7 @@ def wiring(c):
     c.lemma("endpoints_match_the_advertised_descriptors", z3.BoolVal(sorted(adv) == sorted(built)),
             clause=f"(structural) endpoint addresses and max packet sizes of the instantiated endpoints {sorted(built)} equal the "
                    f"endpoint descriptors the device hands to the host {sorted(adv)}")
-    c.lemma("device_connect_is_usb_connect", ts.sig("usb.connect") == I["connect"],
+    c.lemma("device_connect_is_usb_connect", ts.of(ts.instance(USBDevice).connect) == I["connect"],
             clause="`connect` is passed to the USB device")
     c.inv("trivial", z3.BoolVal(True))
 
@@ -181,3 +196,9 @@ def wiring(c):
 def contracts(tier):
     yield ("USBControlEndpoint", "acm_handlers", make_handlers())
     yield ("USBSerialDevice", "utmi_wiring", wiring)
+    # caller side (parameter plumbing): the descriptors the serial device creates are the ones its control endpoint serves,
+    # in packets of the EP0 size those descriptors advertise; and the standard request handler inside the device is the
+    # configuration part (A) composes
+    from .c09_get_descriptor import make_plumbing_packets, make_plumbing_stride
+    yield ("USBSerialDevice", "plumbing_descriptors_reach_get_descriptor_handler", make_plumbing_packets("serial", None, 64))
+    yield ("USBSerialDevice", "plumbing_get_descriptor_stride", make_plumbing_stride("serial", None, 64))
